@@ -513,6 +513,10 @@ def write_replay(pid, payload):
     json.dump(payload, open(p, 'w'), indent=1)
     return p
 
+# state names the dynamic wrapper's unqualified `Ok(..)`, `Err(..)`, `Result<..>`, `Default` clash with on the pinned
+# tree (C18 allows a definition using them not to compile; DESIGN §8). `C` with a generic context is known finding F6.
+NONCOMPILING_IDENTIFIERS = {'Ok', 'Err', 'Result', 'Default'}
+
 def run_check(pid, tier):
     t0 = time.time()
     seed = int(os.environ.get('VERIF_SEED', '1'))
@@ -670,6 +674,22 @@ def run_check(pid, tier):
                                             'dsl': r['dsl'], 'difference': r['difference'], 'concrete_context': r['concrete'],
                                             'dynamic': r['dynamic']}, True))
 
+    # (3d) identifiers that coincide with prelude or generated names but do not clash with anything the generated
+    #      code writes unqualified: such definitions are well-formed and must compile (C14; hence C17). The clashes
+    #      that exist on the pinned tree are a fixed, documented table (DESIGN §8): only those are tolerated.
+    if cfg.get('t4') and 'advpos' in cfg['t4']:
+        if t4k is None:
+            violations.append(({'property': pid, 'broken': 'tie', 'tie': 'T4 known/rename harness', 'detail': prep['errors']}, False))
+        else:
+            for r in t4k['rename']:
+                if r['verdict'] != 'does-not-compile':
+                    continue
+                if (r['identifier'] in NONCOMPILING_IDENTIFIERS and r['dynamic']) or (r['identifier'] == 'C' and not r['concrete']):
+                    continue
+                violations.append(({'property': pid, 'broken': 'property',
+                                    'what': f"well-formed definition with a state named `{r['identifier']}` does not compile: " + '; '.join(r['errors'][:2]),
+                                    'dsl': r['dsl'], 'feature': False, 'concrete_context': r['concrete'], 'dynamic': r['dynamic']}, True))
+
     # (4) T5: the real core functions on the whole finite error algebra
     t5r = prep.get('t5')
     if cfg.get('t5'):
@@ -782,6 +802,16 @@ def run_replay(pid, path):
             print(f'VIOLATION property={pid} replay={path} no-failing-input-found')
             return 1
         print('replay: the implementation satisfies the property on this input and agrees with the model')
+        return 0
+    if 'dsl' in payload and 'does not compile' in payload.get('what', ''):
+        import t4
+        lean_build(['smvdriver'])
+        ok, errs = t4.replay_compile(payload['dsl'], payload.get('feature', False), WORK, REPO)
+        print(json.dumps({'compiles': ok, 'errors': errs}, indent=1))
+        if not ok:
+            print(f'VIOLATION property={pid} replay={path}')
+            return 1
+        print('replay: the definition compiles now')
         return 0
     print(json.dumps(payload, indent=1)[:3000])
     return 1
